@@ -90,7 +90,7 @@ def _inv_chars_good(entry, env, lo, i, hi):
 def _inv_chars_fix(entry, env, lo, i, hi):
     s0 = entry['identifier'][1]; s = env['identifier'][1]; k = Int('kq_cfx%d' % next(S._n))
     return [('length-kept', s.n == s0.n),
-            ('prefix-fixed', ForAll([k], Implies(And(lo <= k, k < i, k < s.n), S.c_ok(s.a[k])), patterns=[s.a[k]])),
+            ('prefix-fixed', ForAll([k], Implies(And(lo <= k, k < i, k < s.n), s.a[k] == If(S.c_ok(s0.a[k]), s0.a[k], 95)), patterns=[s.a[k]])),
             ('rest-untouched', ForAll([k], Implies(And(0 <= k, k < s.n, Or(k < lo, k >= i)), s.a[k] == s0.a[k]), patterns=[s.a[k]]))]
 
 
@@ -111,15 +111,17 @@ def load(repo):
     return cls, consts
 
 
-def run(repo):
+def run(repo, only=None):
     """returns (results, functions{name: sha}, degraded{name: reason})"""
     import hashlib
     cls, consts = load(repo)
     results = []; shas = {}; degraded = {}
     axioms = [cg_extensional_axiom()]
+    failed_before = set()
 
     def verify(fname, mk_args, pre, posts):
         """posts: function(args, kind, value, state) -> [(name, goal)]"""
+        if only and fname not in only: return
         fn = [f for f in cls.body if isinstance(f, ast.FunctionDef) and f.name == fname]
         if not fn:
             degraded[fname] = 'function not found'; return
@@ -143,11 +145,20 @@ def run(repo):
             if cur is None or rank[r[0]] > rank[cur[0]]: agg[name] = [r[0], r[1] + (cur[1] if cur else 0), r[2], r[3]]
             else: cur[1] += r[1]
         for name, hyps, goal in se.obligations:
-            rec('C17/%s/%s' % (fname, name) if not name.startswith('_') else 'C17/' + name, S.discharge(hyps, goal))
+            full = 'C17/%s/%s' % (fname, name) if not name.startswith('_') else 'C17/' + name
+            r = S.discharge(hyps, goal, cheap=full in failed_before)
+            if r[0] != 'discharged': failed_before.add(full)
+            rec(full, r)
         for s, kind, val in se.outcomes:
             for name, goal in posts(args, kind, val, s):
-                r = S.discharge(s.pc, goal)
-                if r[0] != 'discharged':
+                full = 'C17/%s/exit=%s/%s' % (fname, kind, name)
+                ins = {}
+                for a_ in args:
+                    if a_[0] == 'str': ins['identifier'] = a_[1]
+                    if a_[0] == 'obj': ins['name'] = a_[1]['name'][1]
+                r = S.discharge(s.pc, goal, cheap=full in failed_before, inputs=ins)
+                if r[0] != 'discharged': failed_before.add(full)
+                if r[0] != 'discharged' and 'not tried' not in r[2]:
                     f = S.discharge(s.pc, BoolVal(False))
                     if f[0] == 'discharged': r = ('discharged', r[1] + f[1], 'path infeasible', f[3])
                 rec('C17/%s/exit=%s/%s' % (fname, kind, name), r)
@@ -212,7 +223,7 @@ def run(repo):
 if __name__ == '__main__':
     import sys
     sys.setrecursionlimit(20000)
-    res, shas, deg = run(os.environ.get('VERIF_REPO', '/repo'))
+    res, shas, deg = run(os.environ.get('VERIF_REPO', '/repo'), only=sys.argv[1:] or None)
     for r in res:
         print('%-70s %-11s %6.2fs %s %s' % (r[0], r[1], r[2], r[4], r[3][:90]))
     print('degraded:', deg)
